@@ -553,7 +553,8 @@ class TransactionResult:
             return {k: tuple(v) if isinstance(v,list) else v for k,v in item.items()}
 
         def packed_list2tuple(item:dict):
-            return {k: list(map(tuple,v)) if k != 'rewards' and isinstance(v[0],list) else v for k,v in item.items()}
+            #cells are checked one by one because a column can hold lists in some rows and None or other values in others
+            return {k: [tuple(c) if c.__class__ is list else c for c in v] if k != 'rewards' else v for k,v in item.items()}
 
         if version == 3:
             raise CobaException("Deprecated transaction format. Please revert to an older version of Coba to read it.")
